@@ -125,10 +125,31 @@ def run(ctx):
             k = max(2, n // 2)
             res.sample(dict(n=n, k=k, closed_mean=str(closed[k][0]), closed_var=float(closed[k][1]),
                             row=[float(x) for x in rows_of[n, "lognorm"][k]]))
+    # ---- C (large n, cheap): conclusions of closed_sums_to_one / mean_eq_tau_expect on the implementation itself
+    big = [1500] + [int(x) for x in ctx.rng(5).integers(300, 4000, size=ctx.n(2, 8))]
+    stats["large_n"] = big
+    for n in big:
+        mom = cc.impl_moments(n)
+        ones = prior._marginalize_over_ancestors(np.ones((n, 2)))
+        ks = np.arange(2, n)
+        res.evaluations += 1
+        e1 = np.max(np.abs(ones[2:n, 0] - 1.0))
+        e2 = np.max(np.abs(mom[2:n, 0] - (ks - 1) / n) / ((ks - 1) / n))
+        if not e1 <= 1e-9:
+            k = int(ks[np.argmax(np.abs(ones[2:n, 0] - 1.0))])
+            res.violations.append(Violation("recursion-mass-not-one",
+                                            f"_marginalize_over_ancestors: Pr(. | k={k}, n={n}) sums to {ones[k, 0]!r}",
+                                            dict(kind="mass", n=n, k=k)))
+        elif not e2 <= 1e-9:
+            k = int(ks[np.argmax(np.abs(mom[2:n, 0] - (ks - 1) / n) / ((ks - 1) / n))])
+            res.violations.append(Violation("recursion-mean-not-tau-expect",
+                                            f"first-moment column at k={k}, n={n} is {mom[k, 0]!r}, tau_expect = {(k - 1) / n!r}",
+                                            dict(kind="mass", n=n, k=k)))
     res.rule = ("B: Lean model at Rat vs conditional_coalescent_variance / _marginalize_over_ancestors (incl. arbitrary "
                 "columns) / tau_expect / tau_var_mrca / gamma_approx / lognorm_approx, all k for every n listed, rtol 1e-9; "
                 "C: every row k=2..n of ConditionalCoalescentTimes[n] (gamma and lognorm) vs the closed form in Python "
-                "fractions and the moment-matching equations. Non-trivial = (n,k) with k<n and at least two admissible "
+                "fractions and the moment-matching equations; for a few n up to 4000 total mass 1 and first moment = tau_expect on the "
+                "implementation's own recursion. Non-trivial = (n,k) with k<n and at least two admissible "
                 "ancestor counts (n-k>=2); distinct by (n,k).")
     stats["hypotheses"] = dict(rows_2_le_k_lt_n=stats["nonroot"], rows_k_eq_n=stats["root"], hit_rate=1.0)
     res.nontrivial = {common.canon_key(x) for x in res.nontrivial}
@@ -171,6 +192,12 @@ def replay(ctx, payload):
         bad = [v for v in res.violations + res.corr_failures if v.replay.get("k") == k]
         print("violations at this row:", [(v.kind, v.what) for v in bad])
         return not bad
+    if kind == "mass":
+        n, k = d["n"], d["k"]
+        ones = prior._marginalize_over_ancestors(np.ones((n, 2)))
+        mom = cc.impl_moments(n)
+        print(f"n={n} k={k}: sum_a Pr(a|k,n) = {ones[k, 0]!r} (must be 1); first moment = {mom[k, 0]!r}, tau_expect = {(k - 1) / n!r}")
+        return abs(ones[k, 0] - 1) <= 1e-9 and abs(mom[k, 0] - (k - 1) / n) <= 1e-9 * (k - 1) / n
     if kind == "ccv":
         n = d["n"]
         _, fails = cc.corr_ccv([n], {})
